@@ -184,6 +184,8 @@ def build(rec):
             return pd.Series(items, index=rec.get("index"), dtype=object if items and isinstance(items[0], str) else None)
         if k == "set":
             return set(items)
+    if t == "dict":
+        return {k: build(v) for k, v in rec["items"].items()}
     if t == "table":
         return pd.DataFrame({k: [None if (v == "" and rec.get("none_for_empty")) else v for v in vs] for k, vs in rec["columns"].items()})
     if t == "py":
